@@ -44,7 +44,7 @@ func SignJSON(signingName string, keyID KeyID, privateKey ed25519.PrivateKey, me
 	}
 	// Invalid UTF-8 is not refused here (VerifyJSON refuses it): signing must not fail on an event that the
 	// event constructors accepted.
-	if err = checkStrictJSON(message, false); err != nil {
+	if err = checkStrictJSON(message, false, false); err != nil {
 		return nil, err
 	}
 	// Read the two members by their exact names: decoding the message into the struct directly would also
@@ -109,13 +109,15 @@ func SignJSON(signingName string, keyID KeyID, privateKey ed25519.PrivateKey, me
 //
 // Such a message could be altered, or read differently by the next reader, without invalidating its
 // signatures. The check covers the whole message: a second "signatures" or "unsigned" member is as
-// ambiguous as any other, and CanonicalJSON rewrites the inside of "unsigned" as well.
+// ambiguous as any other, and CanonicalJSON rewrites the inside of "unsigned" as well. Only a verifier
+// (skipUnsigned) does not look into the value of "unsigned": it is not signed, nothing of it is read, and
+// a signed object has to verify whatever "unsigned" is changed to.
 //
 // The message comes from another server. json.Valid goes first: it is linear in the length of the
 // message, does not recurse, and refuses what is nested deeper than encoding/json reads (10000 levels), so
 // that nothing below - gjson.ValidBytes recurses, the walk keeps one entry per open object - is exposed to
 // nesting that deep.
-func checkStrictJSON(message []byte, requireUTF8 bool) error {
+func checkStrictJSON(message []byte, requireUTF8, skipUnsigned bool) error {
 	if !json.Valid(message) || !gjson.ValidBytes(message) {
 		return fmt.Errorf("gomatrixserverlib: invalid JSON")
 	}
@@ -128,6 +130,9 @@ func checkStrictJSON(message []byte, requireUTF8 bool) error {
 			return gjson.ParseBytes(raw).Str, true
 		},
 		checkString: func(raw []byte) error { return checkStrictString(string(raw), requireUTF8) },
+	}
+	if skipUnsigned {
+		walk.skipMember = func(name string) bool { return name == "unsigned" }
 	}
 	name, duplicate, err := walk.duplicateName(message)
 	if err != nil {
@@ -196,7 +201,7 @@ func VerifyJSON(signingName string, keyID KeyID, publicKey ed25519.PublicKey, me
 	// It also ensures that the JSON is actually a valid JSON object.
 	var object map[string]*json.RawMessage
 	var signatures map[string]map[KeyID]spec.Base64Bytes
-	if err := checkStrictJSON(message, true); err != nil {
+	if err := checkStrictJSON(message, true, true); err != nil {
 		return err
 	}
 	if err := json.Unmarshal(message, &object); err != nil {
